@@ -62,7 +62,13 @@ pub fn c06_configs(tier: Tier) -> Vec<OutCfg> {
             vec![SK::Stream { qos: 1, size: 6, plan: 9 }, SK::Q1],
             vec![SK::Stream { qos: 0, size: 6, plan: 9 }, SK::Q1, SK::Q0],
             vec![SK::Q1Id(5), SK::Stream { qos: 1, size: 6, plan: 8 }, SK::Q1],
+            // ... and the other way round: the id of a streamed publish is in use from its header on
+            // (mutation-sweep survivor: the streaming path did not record the id)
+            vec![SK::Stream { qos: 1, size: 6, plan: 8 }, SK::Q1Id(5), SK::Q1],
             vec![SK::Q1BigId(5), SK::Q1Id(5), SK::Q1Id(5)],
+            // the id of a publish sent through the non-blocking API is in use until its acknowledgement
+            // (mutation-sweep survivor: that path did not record the id)
+            vec![SK::Q1NoBlockId(5), SK::Q1Id(5), SK::Q1],
             vec![SK::Q2Hold, SK::Q1, SK::Q1],
             vec![SK::Q2Rel, SK::Q1Loop(2)],
             // the id of a QoS 2 send stays in use until PUBCOMP: a send with the same caller-chosen id started
@@ -97,7 +103,7 @@ pub fn c06_configs(tier: Tier) -> Vec<OutCfg> {
                 bp: 0,
                 peer: PeerMode::Correct,
                 // streamed publishes are not attributed by the routing oracle
-                judge: if senders.iter().any(|k| matches!(k, SK::Stream { .. })) { J_LIVENESS } else { J_ROUTING | J_LIVENESS },
+                judge: if senders.iter().any(|k| matches!(k, SK::Stream { .. })) { J_LIVENESS | crate::outbound::J_IDS } else { J_ROUTING | J_LIVENESS },
                 prologue: 0,
                 peer_max_packet: if big { 100 } else { 0 },
                 inbound: 0,
